@@ -21,6 +21,12 @@ G  Gen_LuaTimeout: TLC enumerates the programs with the demanded outcome class a
    resumer; metamethods; code _lua_invoke runs outside its pcall; resumer of a suspended
    coroutine); the sandbox bookkeeping helpers of the LIVE module environment called with
    nil / false / a table / a number before the loop.
+   Sessions (spec/LuaSession.tla: every invocation under its own limit; spec/LuaSessionLoad.tla: the abort happens INSIDE
+   THE LOADING MACHINERY - the endless / failing code is the top-level chunk (or a function) of a library module reached
+   through require() / require() in a nested invocation / mw.loadData / #invoke of the module itself, its name one of the
+   sandbox's retained names or an ordinary one - followed by benign invocations that need the SAME module again through the
+   same cache; the model threads package.loaded and the loadData cache through the session, the demanded outcome of every
+   step is that of a fresh context).
 V  the rendered programs report what happens inside (wrapper entered, error caught by the
    module's own protected call, result) through a recording page-store call; the event
    sequence of every run is validated by TLC (Trace_LuaTimeout) against the machine: it
@@ -604,8 +610,9 @@ def session_child(sess, d, conn):
     os._exit(0)
 
 
-def run_sessions(sessions, base: Path, nproc: int = 16):
+def run_sessions(sessions, base: Path, nproc: int = 16, target=None):
     """Each session in its own child process with a hard kill."""
+    target = target or session_child
     ctxm = mp.get_context("fork")
     res = [None] * len(sessions)
     pending = list(enumerate(sessions))
@@ -614,7 +621,7 @@ def run_sessions(sessions, base: Path, nproc: int = 16):
         while pending and len(running) < nproc:
             idx, sess = pending.pop(0)
             pc, cc = ctxm.Pipe(False)
-            pr = ctxm.Process(target=session_child, args=(sess, str(base / f"s{idx}"), cc))
+            pr = ctxm.Process(target=target, args=(sess, str(base / f"s{idx}"), cc))
             pr.start()
             cc.close()
             budget = sum((LIMIT + 1.5) if st["k"] == "pause" else (LIMIT + KILL) for st in sess) + 10
@@ -665,10 +672,17 @@ def session_outcome(st, rec):
 def check_sessions(o, d: Path):
     from concurrent.futures import ThreadPoolExecutor
 
-    with ThreadPoolExecutor(max_workers=3) as pool:
-        r, dm, dm2 = pool.map(lambda cfg: tlc("Gen_LuaSession", cfg, workers=1, check=cfg.startswith("Gen")),
-                              ["Gen_LuaSession.cfg", "Demo_LuaSession_kept.cfg", "Demo_LuaSession_inband.cfg"])
+    with ThreadPoolExecutor(max_workers=5) as pool:
+        r, dm, dm2, rl, dml = pool.map(lambda mc: tlc(mc[0], mc[1], workers=1, check=mc[1].startswith("Gen")),
+                                       [("Gen_LuaSession", "Gen_LuaSession.cfg"), ("Gen_LuaSession", "Demo_LuaSession_kept.cfg"),
+                                        ("Gen_LuaSession", "Demo_LuaSession_inband.cfg"),
+                                        ("Gen_LuaSessionLoad", "Gen_LuaSessionLoad.cfg"), ("Gen_LuaSessionLoad", "Demo_LuaSessionLoad_kept.cfg")])
     o.add_tlc("Gen_LuaSession (every invocation under its own limit)", r)
+    o.add_tlc("Gen_LuaSessionLoad (aborts inside the loading machinery, then the same module again)", rl)
+    if not dml.invariant_violated:
+        raise common.TLCError("Demo_LuaSessionLoad_kept lost its counterexample")
+    if not any(c["out"] != c["kept"] for c in rl.cases):
+        raise common.TLCError("Gen_LuaSessionLoad: no session distinguishes the demanded design from LoadMarkerKept (vacuity)")
     if not dm.invariant_violated:
         raise common.TLCError("Demo_LuaSession_kept lost its counterexample")
     if not dm2.invariant_violated:
@@ -720,6 +734,213 @@ def check_sessions(o, d: Path):
                             cls="session-" + st["k"])
                 break
     o.sample({"session": cases[0]["sess"], "required": cases[0]["out"]})
+    check_load_sessions(o, d, rl)
+
+
+# ---------------------------------------------------------------------------
+# load sessions: the abort happens INSIDE THE LOADING MACHINERY (spec/LuaSessionLoad.tla): the endless / failing code is
+# the top-level chunk of a library module reached through require() / mw.loadData / as the invoked module itself /
+# through require() in a nested invocation; the module's name is one of the retained ones (its package.loaded entry
+# survives every environment reset) or an ordinary one; then a benign invocation needs the same module again
+# ---------------------------------------------------------------------------
+RETAINED_DEFAULT = ["utilities", "table", "string utilities", "languages"]
+
+
+def retained_names():
+    """(names, drift): Module-namespace names the LIVE sandbox keeps in package.loaded across environment resets (read
+    from the source of the sandbox of the tree under test; the default list + a DRIFT note if it cannot be read)"""
+    try:
+        import wikitextprocessor
+
+        text = (Path(wikitextprocessor.__file__).parent / "lua" / "_sandbox_phase1.lua").read_text()
+        got = sorted(set(re.findall(r'retained_modules\[\s*module_namespace_name\s*\.\.\s*":([\w -]+)"\s*\]\s*=\s*true', text)))
+        if len(got) >= 2:
+            return got, None
+    except Exception:  # noqa: BLE001
+        pass
+    return list(RETAINED_DEFAULT), {"retained_modules_not_readable": "the list of retained module names could not be read from _sandbox_phase1.lua; "
+                                    "default names used", "names": RETAINED_DEFAULT}
+
+
+def load_names(retained, rng):
+    a, b = rng.sample(retained, 2)
+    return {"r1": "Module:" + a, "r2": "Module:" + b, "o1": "Module:c07 ordinary lib"}
+
+
+def lib_module(title: str) -> str:
+    """A library module whose LOAD (top-level chunk) or whose function does what the page 'c07mode' says at that moment."""
+    return (
+        "local export = {}\n"
+        "local mode = mw_python_get_page_content('c07mode', 0)\n"
+        "if mode == 'spin-chunk' then while true do end end\n"
+        "if mode == 'err-chunk' then error('c07: configuration check failed while loading') end\n"
+        f"export.tag = 'ok:{title}'\n"
+        "function export.work(frame)\n"
+        "  local m = mw_python_get_page_content('c07mode', 0)\n"
+        "  if m == 'spin-fn' then while true do end end\n"
+        "  if m == 'err-fn' then error('c07: failed at work') end\n"
+        "  return export.tag\n"
+        "end\n"
+        "return export\n")
+
+
+LOAD_CALLER = (
+    "local p = {}\n"
+    "function p.req(frame) return require(frame.args[1]).work(frame) end\n"
+    "function p.data(frame) return mw.loadData(frame.args[1]).tag end\n"
+    "function p.nreq(frame) return frame:preprocess('{{#invoke:c07l|req|' .. frame.args[1] .. '}}') end\n"
+    "return p\n")
+
+
+def load_call(st, names) -> str:
+    t = names[st["m"]]
+    if st["via"] == "self":
+        return "{{#invoke:%s|work}}" % t[len("Module:"):]
+    return "{{#invoke:c07l|%s|%s}}" % ({"require": "req", "nreq": "nreq", "data": "data"}[st["via"]], t)
+
+
+def load_session_child(job, d, conn):
+    sys.stdout = open(os.devnull, "w")
+    sys.stderr = open(os.devnull, "w")
+    common.use_repo()
+    from wikitextprocessor import Wtp
+
+    sess, names = job["sess"], job["names"]
+    mode = {"v": ""}
+
+    class ModeWtp(Wtp):
+        def get_page_body(self, title, namespace_id):
+            if title == "c07mode":
+                return mode["v"]
+            return super().get_page_body(title, namespace_id)
+
+    sub = Path(d) / "db"
+    sub.mkdir(parents=True)
+    ctx = ModeWtp(db_path=sub / "pages.db", quiet=True)
+    mods = {"ustring:ustring": luafix.USTRING_STUB, "libraryUtil": luafix.LIBRARYUTIL_STUB, "c07l": LOAD_CALLER}
+    for t in names.values():
+        mods[t] = lib_module(t)
+    luafix.add_modules(ctx, mods)
+    ctx.db_conn.commit()
+    ctx.start_page("Tt")
+    for i, st in enumerate(sess):
+        mode["v"] = "" if st["k"] == "use" else f"{st['k']}-{st['at']}"
+        t0 = time.time()
+        try:
+            out = ctx.expand(load_call(st, names), timeout=(LIMIT if st["k"] == "spin" else LIMIT * 5))
+        except BaseException as e:  # noqa: BLE001
+            out = "EXC " + repr(e)[:200]
+        conn.send((i, "done", time.time() - t0, out))
+    conn.close()
+    os._exit(0)
+
+
+LOAD_ERR = re.compile(r'^<strong class="error">Lua execution error in Module:[^<|]+ function \w+</strong>$')   # (names with spaces)
+LOAD_TMO = re.compile(r'^<strong class="error">Lua timeout error in Module:[^<|]+ function \w+</strong>$')
+
+
+def load_outcome(st, rec, names):
+    if rec is None:
+        return "hung"
+    _, _, elapsed, out = rec
+    if isinstance(out, str) and out.startswith("EXC "):
+        return "exception"
+    if isinstance(out, str) and LOAD_TMO.match(out):
+        return "timeout-in-bound" if (st["k"] == "spin" and elapsed <= LIMIT + BOUND) else ("timeout-late" if st["k"] == "spin" else "timeout")
+    if isinstance(out, str) and LOAD_ERR.match(out):
+        return "error"
+    return "value" if out == "ok:" + names[st["m"]] else "other"
+
+
+VIA_TEXT = {"require": "require() in a function of the invoked module", "nreq": "require() inside a nested invocation (frame:preprocess)",
+            "data": "mw.loadData()", "self": "#invoke of that module itself"}
+
+
+def describe_load_step(st, names) -> str:
+    t = names[st["m"]]
+    kind = "its name is in the sandbox's list of retained modules" if st["m"] != "o1" else "an ordinary module name"
+    if st["k"] == "use":
+        return f"benign use of {t} through {VIA_TEXT[st['via']]}"
+    what = "the time limit struck" if st["k"] == "spin" else "a Lua error was raised"
+    where = f"while the top-level chunk of {t} was running, i.e. DURING ITS LOAD" if st["at"] == "chunk" else f"in a function of {t}, after its load"
+    return f"{what} {where} ({kind}), reached through {VIA_TEXT[st['via']]}"
+
+
+def check_load_sessions(o, d: Path, r):
+    """r: the TLC run of Gen_LuaSessionLoad"""
+    retained, drift = retained_names()
+    if drift:
+        o.note_drift(drift)
+    rng = random.Random(common.seed() * 104729 + 11)
+    names = load_names(retained, rng)
+    o.extra["load_session_names"] = names
+    cases = r.cases
+    jobs = [{"sess": c["sess"], "names": names} for c in cases]
+
+    class _J(dict):     # run_sessions computes the time budget from the steps
+        def __iter__(self):
+            return iter(self["sess"])
+
+    res = run_sessions([_J(j) for j in jobs], d / "loadsessions", nproc=32, target=load_session_child)
+
+    def first_mismatch(c, got):
+        if any(g[1] == "killed" for g in got):
+            return -1
+        by = {g[0]: g for g in got}
+        for j, stj in enumerate(c["sess"]):
+            if load_outcome(stj, by.get(j), names) != c["out"][j]:
+                return j
+        return None
+
+    suspects = [i for i, (c, got) in enumerate(zip(cases, res)) if first_mismatch(c, got) is not None]
+    o.extra["load_sessions_reexecuted"] = len(suspects)
+    for attempt in (1, 2):       # same protection as for the other sessions: a mismatch must show again, twice
+        if not suspects:
+            break
+        again = run_sessions([_J(jobs[i]) for i in suspects], d / f"loadsessions-redo{attempt}", nproc=3 if len(suspects) <= 6 else 8,
+                             target=load_session_child)
+        still = []
+        for i, got in zip(suspects, again):
+            res[i] = got
+            if first_mismatch(cases[i], got) is not None:
+                still.append(i)
+        suspects = still
+    # the fresh-context reference: the one-step sessions <<use>> must give the value, or the machinery is broken
+    for c, got in zip(cases, res):
+        if len(c["sess"]) == 1 and first_mismatch(c, got) is not None:
+            raise RuntimeError(f"load sessions: the benign use {load_call(c['sess'][0], names)} does not give its value on a FRESH context: {got}")
+    for c, got in zip(cases, res):
+        if any(g[1] == "killed" for g in got):
+            raise RuntimeError(f"load session {c['sess']}: the child process was killed from outside in every execution: machine out of memory?")
+        o.traces += 1
+        o.shape(("loadsession", common.json_key(c["sess"])))
+        by_i = {g[0]: g for g in got}
+        for i, st in enumerate(c["sess"]):
+            o.evaluations += 1
+            real = load_outcome(st, by_i.get(i), names)
+            if real == c["out"][i]:
+                continue
+            calls = [load_call(x, names) for x in c["sess"]]
+            if st["k"] == "use":
+                before = "; then ".join(describe_load_step(x, names) for x in c["sess"][:i] if x["k"] != "use")
+                why = (f"after an aborted invocation the same context does not expand a subsequent benign invocation correctly: step {i} "
+                       f"{calls[i]} ({describe_load_step(st, names)}) gave {real!r} ({(by_i.get(i) or [None] * 4)[3]!r}); a fresh context gives "
+                       f"'ok:{names[st['m']]}'.  Before it: {before}")
+                if real == c["kept"][i]:
+                    why += (".  That is what the model predicts when the loader leaves an unfinished entry for the module in its cache "
+                            "(package.loaded / the mw.loadData cache) when the chunk does not return [LoadMarkerKept]: the entry of a retained "
+                            "name survives every environment reset, so the module is never loaded again on this context")
+            else:
+                why = (f"step {i} {calls[i]} ({describe_load_step(st, names)}) gave {real!r}; demanded: {c['out'][i]!r} "
+                       "(the invocation is stopped by its own limit / an error becomes an in-band error element, wherever the code sits)")
+                if i > 0:
+                    why += ("; a fresh context gives that, this context does not after: "
+                            + "; then ".join(describe_load_step(x, names) for x in c["sess"][:i] if x["k"] != "use"))
+            o.violation({"kind": "loadsession", "session": c["sess"], "calls": calls, "names": names, "step": i, "observed": real,
+                         "required": c["out"][i], "detail": [list(g) for g in got]}, why, cls=f"loadsession-{st['k']}-after-{c['sess'][0]['at']}")
+            break
+    o.sample({"load_session": [load_call(x, names) for x in cases[len(cases) // 2]["sess"]], "steps": cases[len(cases) // 2]["sess"],
+              "required": cases[len(cases) // 2]["out"]})
 
 
 def run(tier: str) -> int:
@@ -734,7 +955,9 @@ def run(tier: str) -> int:
         "resumer -, mts/mix into a metamethod, lix/load into code _lua_invoke runs outside its pcall, coy into the resumer of a "
         "suspended coroutine; hc:<helper>:<value> calls one of the bookkeeping helpers of the LIVE module environment with "
         "nil / false / a table / a number before the loop), plus histories of "
-        "several programs on one context; each followed by benign invocations compared with a fresh context. "
+        "several programs on one context; each followed by benign invocations compared with a fresh context; sessions of "
+        "Gen_LuaSession and Gen_LuaSessionLoad (abort cause spin/err x place chunk-of-a-library-module/function x way "
+        "require/nested require/mw.loadData/self x name retained/ordinary, then benign uses of the same module; distinct by step list). "
         "V: one recorded event trace per executed program."
     )
     o.assumptions = [
@@ -1062,5 +1285,17 @@ def selftest() -> int:
         named = len(o5.violations) == 1 and "_python_append_env(nil)" in json.dumps(o5.violations[0]) and "EnvStackHelperAcceptsNil" in json.dumps(o5.violations[0])
         print("hung after the helper call:", len(o5.violations), "violation(s), helper and deviation named =", named)
         ok &= named
+        # (6) load sessions: an abort inside the load of a required retained-named module, then the module again: as demanded for
+        # real; with a corrupted expectation (the benign use demanded to fail) the step is reported
+        import types
+
+        rl = tlc("Gen_LuaSessionLoad", "Gen_LuaSessionLoad.cfg", workers=1)
+        two = [c for c in rl.cases if len(c["sess"]) == 2 and c["out"] != c["kept"]][:2]
+        o6 = Outcome(PID, "quick")
+        check_load_sessions(o6, d / "l1", types.SimpleNamespace(cases=two))
+        o7 = Outcome(PID, "quick")
+        check_load_sessions(o7, d / "l2", types.SimpleNamespace(cases=[dict(two[0], out=[two[0]["out"][0], "error"])] + two[1:]))
+        print("load sessions:", len(o6.violations), "violation(s); with a corrupted expectation:", len(o7.violations))
+        ok &= len(o6.violations) == 0 and len(o7.violations) == 1
     print("selftest", "ok" if ok else "FAILED")
     return 0 if ok else 1
